@@ -351,6 +351,9 @@ func (e *Engine) opDump(c *cursor) *Violation {
 	if v := e.loadHandleProbe(&d2); v != nil {
 		return v
 	}
+	if v := e.agedLoadProbe(c, js); v != nil {
+		return v
+	}
 	// EntityDump.Alive is documented as the alive IDs in query iteration order
 	{
 		q := w.Query(ecs.All())
